@@ -20,7 +20,8 @@ Listening(p, addr, lvl, allowMc, prefix, suffix) ==
   /\ p.p1 = PhysAddr(addr, 1, prefix, suffix, allowMc)
   /\ \A k \in 2..5 : p.p25[k - 1] = PhysAddr(addr, k, prefix, suffix, allowMc)[1]
   /\ p.p0 = (IF allowMc THEN (IF lvl = 0 THEN PhysAddr(0, 0, prefix, suffix, TRUE)
-                              ELSE PhysAddr(LevelAddr(lvl), 0, prefix, suffix, TRUE))
+                              ELSE IF lvl \in 1..4 THEN PhysAddr(LevelAddr(lvl), 0, prefix, suffix, TRUE)
+                              ELSE <<>>)        \* no such level: the node reports a multicast level nobody can address
              ELSE PhysAddr(addr, 0, prefix, suffix, FALSE))
 
 \* ---------------- frames on air
